@@ -37,6 +37,12 @@ class Harness:
 
         if os.environ.get("VERIF_PARAMS"):  # developer override, e.g. VERIF_PARAMS='{"L":4}'
             p.update(json.loads(os.environ["VERIF_PARAMS"]))
+        # Wall-time cap of the thorough tier: the shards of one harness share 16 cores, so the per-shard CPU budget is
+        # cut to what keeps the harness within the cap.  A bound that is not exhausted within it is reported as
+        # INCONCLUSIVE (exit 0, evidence says exhaustive=false) -- never as held.
+        cap = float(os.environ.get("VERIF_WALL_CAP_S", "900" if tier == "thorough" else "0") or 0)
+        if cap > 0:
+            p["budget_s"] = min(p["budget_s"], max(30.0, cap * min(16, p["shards"]) / p["shards"]))
         return p
 
 
